@@ -194,6 +194,17 @@ def run(ctx):
     _gate(r, p, check, cph, csb)
     _table(r, rt, cp, ca)
     _forwarding(r, p, cg, check, fix)
+    # a phase assigned by configuration is the phase the selectors see: the configuration readers store it as given
+    from . import c12 as _c12
+
+    scratch12 = Result("C12")
+    scratch12.load_table("c12.json")
+    _c12._siblings(scratch12, p)
+    hit = [f for f in scratch12.findings if f.key.endswith(":stores-value")]
+    for f in hit:
+        r.fail("C13.table", "configured-phase:" + f.key, "a configured `phase` may not reach get_rules_in_phase: " + f.message, f.loc)
+    if not hit:
+        r.ok("C13.table", "configured-phase", "configuration readers store every configured attribute (phase included) as given, so the phase loops select by the configured phase")
     return r
 
 
